@@ -398,7 +398,7 @@ func (in *Interp) sel(fr *frame, x *ssa.Select) Value {
 		// Go chooses uniformly at random among ready cases
 		idx = ready[in.chooseN("select", len(ready))]
 	}
-	res := TupleV{BV(64, int64(idx)), Bool(false)}
+	res := TupleV{IX(int64(idx)), Bool(false)}
 	for i, st := range x.States {
 		if st.Dir != types.RecvOnly {
 			if i == idx {
